@@ -252,3 +252,74 @@ def preemption_schedules(run, quick):
         sys.stdout = old_stdout
     run.extra["preemption_schedules_run"] = total
     run._distinct.update(f"sched{i}" for i in range(total))
+
+
+def related_input_histories(run, n):
+    """Histories 'accepted call, then a related call' (same keys and signatures with another payload, other headers,
+    the other mode, entries moved between keys ...), in one process, in both orders and repeated.  Every verdict is
+    judged by Trace_Verify.tla from the call's own arguments: it must not depend on what was verified before."""
+    from . import crypto, traces_verify
+    auth = lib.cct("authentication")
+    keys = gamma.Keys(4, run.seed, offset=1200)
+    r = random.Random(run.seed * 17 + 3)
+    traces, conc = [], {}
+    for tid in range(1, n + 1):
+        P, Q = gamma.make_payloads(r)
+        Pb = twin_canon(P)
+        gpg = r.random() < 0.5
+        ks = r.sample(range(1, 5), r.randint(1, 3))
+        hdr = r.choice(gamma.HEADERS)
+        sigs = {}
+        for k in ks:
+            if gpg:
+                sigs[keys.pub[k]] = {"other_headers": hdr.hex(), "signature": keys.sign(k, crypto.gpg_digest(Pb, hdr)).hex()}
+            else:
+                sigs[keys.pub[k]] = {"signature": keys.sign(k, Pb).hex()}
+        base = ({"signatures": sigs, "signed": P}, [keys.pub[k] for k in ks], len(ks), gpg)
+        kind = r.randrange(7)
+        env2 = copy.deepcopy(base[0])
+        auth2, gpg2 = list(base[1]), gpg
+        if kind == 0:
+            env2["signed"] = Q                                        # same keys, same signatures, different payload
+        elif kind == 1 and gpg:
+            k0 = sorted(env2["signatures"])[0]
+            h2 = r.choice([h for h in gamma.HEADERS if h != hdr])
+            env2["signatures"][k0]["other_headers"] = h2.hex()        # same signature, other hashed headers
+        elif kind == 2:
+            gpg2 = not gpg                                            # the other mode
+        elif kind == 3 and not gpg:
+            for e in env2["signatures"].values():
+                e["other_headers"] = hdr.hex()                        # raw signature dressed as an OpenPGP entry, OpenPGP mode
+            gpg2 = True
+        elif kind == 4 and len(ks) >= 2:
+            a, b = sorted(env2["signatures"])[:2]
+            env2["signatures"][a], env2["signatures"][b] = env2["signatures"][b], env2["signatures"][a]   # entries swapped between keys
+        elif kind == 5:
+            other = [keys.pub[k] for k in range(1, 5) if k not in ks]
+            if other:
+                k0 = sorted(env2["signatures"])[0]
+                env2["signatures"][other[0]] = env2["signatures"].pop(k0)   # valid entry moved under another (authorized) key
+                auth2 = [other[0] if x == k0 else x for x in auth2]
+        else:
+            env2["signed"] = copy.deepcopy(P)
+            if isinstance(env2["signed"], dict):
+                env2["signed"]["_x"] = 1
+            else:
+                env2["signed"] = [env2["signed"]]
+        calls = [base, (env2, auth2, len(auth2), gpg2)]
+        order = r.choice([[0, 1], [1, 0, 1], [0, 0, 1, 1], [0, 1, 0]])
+        evs, cs = [], []
+        for i in order:
+            env, au, thr, g = calls[i]
+            out, exc, _ = lib.call(auth.verify_signable, copy.deepcopy(env), list(au), thr, gpg=g)
+            run.evaluations += 1
+            ev = traces_verify.alpha_call(env, au, thr, g, out)
+            if ev:
+                evs.append(ev)
+                cs.append({"envelope": env, "authorized": au, "threshold": thr, "gpg": g, "observed": out, "exc": exc, "position_in_history": len(evs)})
+        if evs:
+            traces.append({"id": tid, "events": evs})
+            conc[tid] = cs
+        run._distinct.add("rel%d" % tid)
+    traces_verify.judge(run, traces, conc, lambda o: True, label="history of related inputs:")
+    run.extra["related_input_histories"] = len(traces)
